@@ -45,8 +45,8 @@ GEN = {
                           ("empty-chord", ["P:S", "P:A", "P:B", "R:B"], 4, 0, 2, 0), ("norep", ["P:LEFTSHIFT", "P:S", "P:D", "R:LEFTSHIFT"], 4, 0, 2, 0),
                           ("basic", ["P:S", "P:S", "R:S"], 3, 0, 4, 1)],
     ("C12", "quick"): [("basic", ["P:A", "R:A"], 2, 2, 0, 0), ("basic", ["P:S"], 1, 2, 2, 0), ("chord", ["P:LEFTCTRL", "P:K"], 2, 1, 1, 0), ("basic", ["P:A", "R:A"], 3, 1, 0, 0)],
-    ("C12", "thorough"): [("basic", ["P:A", "R:A"], 3, 2, 0, 0), ("basic", ["P:S", "R:S"], 2, 2, 2, 0), ("chord", ["P:LEFTCTRL", "P:K", "R:LEFTCTRL"], 3, 2, 1, 0),
-                          ("basic", ["P:A", "R:A"], 2, 3, 0, 0), ("norep", ["P:LEFTSHIFT", "P:A", "R:LEFTSHIFT"], 3, 2, 0, 0)],
+    ("C12", "thorough"): [("basic", ["P:A", "R:A"], 3, 2, 0, 0), ("basic", ["P:S", "R:S"], 2, 2, 2, 0), ("chord", ["P:LEFTCTRL", "P:K", "R:LEFTCTRL"], 2, 2, 1, 0),
+                          ("basic", ["P:A", "R:A"], 2, 3, 0, 0), ("norep", ["P:LEFTSHIFT", "P:A", "R:LEFTSHIFT"], 2, 2, 1, 0)],
     ("C20", "quick"): [("basic", ["P:A", "P:S"], 2, 1, 1, 0), ("chord", ["P:LEFTCTRL", "P:K"], 2, 1, 1, 0)],
     ("C20", "thorough"): [("basic", ["P:A", "R:A", "P:S"], 3, 1, 1, 1), ("chord", ["P:LEFTCTRL", "P:K", "R:K"], 3, 1, 2, 0), ("norep", ["P:LEFTSHIFT", "P:A", "P:S"], 3, 1, 1, 0)],
 }
